@@ -170,7 +170,9 @@ func checkC12(c c12Case, ctx *vCtx) *vFailure {
 				for i := range vals {
 					tol := new(big.Rat)
 					if !c.S.Exact {
+						// half a cent per printed figure + float64 resolution at this magnitude
 						tol = vRatMul(big.NewRat(int64(nparts[name])+1, 2), vCent)
+						tol.Add(tol, vRatMul(big.NewRat(int64(nparts[name])+1, 1000000000000000), vRatAbs(vals[i])))
 					}
 					if vRatAbs(vRatSub(g[i], vals[i])).Cmp(tol) > 0 {
 						return vFailf("%v: %q: the concatenated log (%d blocks) shows %s, the parts sum to %s", subst(cmd), name, k+1, g[i].FloatString(2), vals[i].FloatString(2))
@@ -183,6 +185,8 @@ func checkC12(c c12Case, ctx *vCtx) *vFailure {
 }
 
 func genC12(t *rapid.T) c12Case {
+	vLongNameOneIn = 4 // names longer than the 27/20-column fields
+	defer func() { vLongNameOneIn = 10 }()
 	exact := rapid.IntRange(0, 3).Draw(t, "exact") > 0
 	s := vGenScenario(t, vScenOpts{Paths: rapid.Bool().Draw(t, "paths"), MinDays: 0, MaxDays: 0, Exact: &exact, NUnknown: 3})
 	foods := append(append(append([]string{}, s.Recipes...), s.Basics...), s.Unknown...)
@@ -201,6 +205,9 @@ func genC12(t *rapid.T) c12Case {
 	var allDayNums []int
 	genDay := func(rt *rapid.T, day int, minEntries int) vRec {
 		ne := rapid.IntRange(minEntries, 5).Draw(rt, "nent")
+		if rapid.IntRange(0, 11).Draw(rt, "longday") == 0 {
+			ne = rapid.IntRange(17, 90).Draw(rt, "nentlong") // beyond any small-size fast path, several per history
+		}
 		var lines []vLine
 		for k := 0; k < ne; k++ {
 			nm := foods[rapid.IntRange(0, len(foods)-1).Draw(rt, "food")]
